@@ -62,9 +62,17 @@ AllowedDecl(G) == [p \in AllPatterns |-> MinimalSets(InitialTable(G)[p] \cup UNI
 \* forbidden shadings of p given the table and the forbidden patterns of shorter lengths
 Hits(C, SS) == \A U \in SS : C \cap U # {}
 ImpliedByShorter(p, C, B) == \E q \in DOMAIN B : Len(q) < Len(p) /\ \E R \in B[q] : MOccInMesh(MMesh(q, R), MMesh(p, C)) # {}
-ForbiddenOf(p, SS, B) ==
+\* the direct statement: the minimal shadings among those that meet every allowed set and are not implied
+ForbiddenDirect(p, SS, B) ==
     IF SS = {} THEN (IF ImpliedByShorter(p, {}, B) THEN {} ELSE {{}})
     ELSE MinimalSets({C \in SUBSET MCells(Len(p)) : Hits(C, SS) /\ ~ImpliedByShorter(p, C, B)})
+\* the same set, computed the cheap way round: "implied" is preserved by shading more, so a minimal valid shading is a
+\* minimal hitting set that is not implied; a hitting set is minimal iff no single cell can be dropped.  (Invariant
+\* ForbFastIsDirect: equal to the direct statement on every input with patterns up to length 2.)
+MinimalHitting(SS, cells) == {C \in SUBSET cells : Hits(C, SS) /\ \A c \in C : ~Hits(C \ {c}, SS)}
+ForbiddenOf(p, SS, B) ==
+    IF SS = {} THEN (IF ImpliedByShorter(p, {}, B) THEN {} ELSE {{}})
+    ELSE {H \in MinimalHitting(SS, MCells(Len(p))) : ~ImpliedByShorter(p, H, B)}
 EmptyB == [p \in {} |-> {}]
 RECURSIVE ForbUpTo(_, _, _)
 \* the forbidden table for the interval lengths <= j (in increasing order of length)
@@ -118,13 +126,14 @@ OutputComplete == phase = "done" /\ Interval(A) # {} => BComplete(A, M, out)
 OutputIrredundant == phase = "done" => BIrredundant(A, N, out)
 OutputIsItsMeaning == phase = "done" => out = OutputDecl(A)
 PatternsShort == \A S \in out : Len(S.p) <= M
+ForbFastIsDirect == M <= 2 => \A p \in DOMAIN badp : badp[p] = ForbiddenDirect(p, allowed[p], badp)
 
 \* ---- emission ----------------------------------------------------------------------------
 CellSeq(U) == SetToSortSeq(U, LAMBDA c, d : c[1] < d[1] \/ (c[1] = d[1] /\ c[2] < d[2]))
 TableJson(T) == LET ps == SetToSortSeq({p \in DOMAIN T : T[p] # {}}, PPermLess) IN
                 [i \in DOMAIN ps |-> [p |-> ps[i], sets |-> SetToSeq({CellSeq(U) : U \in T[ps[i]]})]]
 EmitDone == phase = "done" =>
-    PrintT(ToJson([A |-> SetToSortSeq(A, PPermLess), interval |-> SetToSortSeq(Interval(A), <),
+    PrintT(ToJson([m |-> M, n |-> N, A |-> SetToSortSeq(A, PPermLess), interval |-> SetToSortSeq(Interval(A), <),
                    allowed |-> TableJson(allowed), bad |-> TableJson(badp),
                    out |-> SetToSeq({[p |-> S.p, R |-> CellSeq(S.R)] : S \in out})]))
 =============================================================================
